@@ -221,7 +221,7 @@ def _analysis(case, r, per_axis):
     r.label('in_D2_predicate' if (d2a or d2b) else None, 'in_D1_predicate' if in_d1 else None)
     r.nontrivial = J >= 2 or any(n % 2 for n in size) or mode != 'zero'
     cls = DWT1DForward if dim == 1 else DWTForward
-    sib = dwtu.sibling(w) if (case.get('reused') and not case.get('wave_row')) else None
+    sib = dwtu.sibling(w) if (case.get('reused') and not case.get('wave_row') and mode != 'reflect') else None
     if sib is None:
         fwd = cls(J=J, wave=_wave_arg(case, 'dec'), mode=mode)
     else:
@@ -324,7 +324,7 @@ def _synthesis(case, r, per_axis):
             'low_without_grad' if 'low' not in sub else None)
     r.nontrivial = len(sub) < J + 1 or J >= 2 or any(n % 2 for n in size) or mode != 'zero'
     cls = DWT1DInverse if dim == 1 else DWTInverse
-    sib = dwtu.sibling(w) if (case.get('reused') and not case.get('wave_row')) else None
+    sib = dwtu.sibling(w) if (case.get('reused') and not case.get('wave_row') and mode != 'reflect') else None
     if sib is None:
         inv = cls(wave=_wave_arg(case, 'rec'), mode=mode)
     else:
